@@ -43,6 +43,10 @@ def replay_wulff(data):
     cases.append((np.vstack([octa, np.array([[0, 0, 1.0], [0, 0, -1.0]])]), np.r_[np.ones(8), 1.1, 1.1]))
     # a cube whose corners are cut by tiny {111} facets: true edges of length 1.4e-3, far above the pruning threshold of 1e-5
     cases.append((np.vstack([cube, octa]), np.r_[np.ones(6), ((3 - 1e-3) / np.sqrt(3)) * np.ones(8)]))
+    # facets that do not appear on the shape, given before / between the ones that do (their membership lists are empty but keep their place)
+    unused = octa.copy()
+    cases.append((np.vstack([unused, cube]), np.r_[2.0 * np.ones(8), np.ones(6)]))
+    cases.append((np.vstack([cube[:3], unused, cube[3:]]), np.r_[np.ones(3), 2.0 * np.ones(8), np.ones(3)]))
     # the same shapes with the normals given as integer arrays / nested lists and non-integer energies (axis-aligned normals are
     # naturally written as integers, as in the library's own cube example)
     typed = []
@@ -67,6 +71,11 @@ def replay_wulff(data):
         onf = (np.abs(slack) < 1e-8).sum(axis=0)
         if onf.min() < 3:
             bad.append("a vertex lies on fewer than three facets")
+        wf = list(w.wulff_facets)
+        if len(wf) != len(normals):
+            bad.append("%d facet membership lists for %d facets given" % (len(wf), len(normals)))
+        elif any(len(f) and np.abs(slack[k, list(f)]).max() > 1e-8 for k, f in enumerate(wf)):
+            bad.append("a facet's membership list names a vertex that is not on that facet's plane (lists do not line up with the facets given)")
         hs = HalfspaceIntersection(np.c_[normals, -e], np.zeros(3))
         ref = hs.intersections
         uniq = np.unique(np.round(V, 6), axis=0)
@@ -275,7 +284,9 @@ def part_vertex(ctx):
                       goal=(sum(E[0] * D[0, k] * x[k] for k in range(3)) <= E[0]).t, extract=lambda m: {}, timeout=ctx.default_timeout * 2))
     ctx.note("scaling: the vertex lemmas hold for arbitrary dual points and energies, so the shape for energies s*e (dual points d/s) is the unique solution of "
              "n_i.x' = s e_i, i.e. x' = s x (instance of the universally quantified lemma + uniqueness of a non-degenerate 3x3 system; not a separate query)")
-    okf = w.wulff_facets[1] == [0] and w.wulff_facets[2] == [0] and w.wulff_facets[3] == [0] and w.wulff_facets[0] == []
+    # one membership list per facet given, in the order given -- also for a facet that does not appear on the shape (facet 0 here)
+    wf = [list(f) for f in w.wulff_facets]
+    okf = len(wf) == 4 and wf[1] == [0] and wf[2] == [0] and wf[3] == [0] and wf[0] == []
     ctx.record("vertex: membership lists -- the vertex is listed under exactly the three facets of its simplex", "holds" if okf else "counterexample", nontrivial=True)
     res = ctx.query_many(tasks)
     for t, r in zip(tasks, res):
